@@ -2,10 +2,12 @@
   C05 — Strict mode never silently ignores a statement that changes a variable.
   Proved (Mwp/Lemmas/SyntaxThms*.lean): when the model of the syntax check reports full support,
   every statement of the function is readable by the calculus (`Spec.unmodellable f = []`), under
-  three explicit exclusions, each with a kernel-checked witness in Lemmas/SyntaxThms.lean:
-    NoNestedUnary    -- x = - -y        : a genuine gap of the code (known finding)
+  two explicit exclusions, each with a kernel-checked witness in Lemmas/SyntaxThms.lean:
     NoIncDecOfConst  -- x = ++5         : not C, but pycparser parses it
     StmtShaped       -- trees the C parser never produces (a TypeDecl as a statement, …)
+  (The former exclusion NoNestedUnary is gone: `x = - -y` is now refused by the syntax check, a
+  nested unary operand being accepted only under `!`/`sizeof` and only if it is not `++`/`--`;
+  see the examples `witNestedUnary`, `exNotOfNeg`, `exNotOfInc` in Lemmas/SyntaxThms.lean.)
   Together with Props/C01 (readable statements are analysed, `skipped` lists only effect-free
   expression statements) this is the property for statements.  Controlling expressions are NOT
   inspected by the syntax check at all: the negative witness below is the known finding.
@@ -15,8 +17,8 @@ namespace Mwp.Props.C05
 open Mwp Mwp.Syntax
 
 theorem full_support_means_readable_partial (f m : Node) (hf : f.isFunc = true)
-    (h : coverage f = .ok (0, m)) (hnu : NoNestedUnary f) (hid : NoIncDecOfConst f)
+    (h : coverage f = .ok (0, m)) (hid : NoIncDecOfConst f)
     (hs : StmtShaped f) : Spec.unmodellable f = [] :=
-  full_implies_modellable_partial f m hf h hnu hid hs
+  full_implies_modellable_partial f m hf h hid hs
 
 end Mwp.Props.C05
